@@ -88,6 +88,17 @@ func runConc(args []string) int {
 		return 2
 	}
 	masterT, _ := bip32.NewMaster(seedBytes, &chaincfg.TestNet) // the same key material on another network
+	// a DERIVED private key whose scalar has a leading zero byte (stored with fewer than 32 bytes): hardened
+	// derivation has to left-pad it, which must not be done by writing to the shared key
+	var shortK *bip32.ExtendedKey
+	searchM, _ := bip32.NewMaster(seedBytes, &chaincfg.MainNet) // not `master`: its public-key cache must stay empty for phase 2
+	for i := uint32(0); i < 4000 && shortK == nil; i++ {
+		if c, err := searchM.Child(bip32.HardenedKeyStart + i); err == nil {
+			if sk, err := c.ECPrivKey(); err == nil && len(sk.D.Bytes()) < 32 {
+				shortK = c
+			}
+		}
+	}
 	pubX, _ := bip32.NewKeyFromString(func() string {
 		m2, _ := bip32.NewMaster(seedBytes, &chaincfg.MainNet)
 		n, _ := m2.Neuter()
@@ -154,6 +165,15 @@ func runConc(args []string) int {
 				put("bip39.seed", hx(sd))
 				mn, _, _ := bip39.Mnemonic(bytes.Repeat([]byte{byte(it)}, 16), "")
 				put("bip39.mn"+fmt.Sprint(it), mn)
+				if shortK != nil {
+					hc, _ := shortK.Child(bip32.HardenedKeyStart + 3)
+					put("short.childH3", hc.String())
+					put("short.string", shortK.String())
+					nc, _ := shortK.Child(5)
+					put("short.child5", nc.String())
+					sk, _ := shortK.ECPrivKey()
+					put("short.priv", hx(sk.Serialise()))
+				}
 				id, _ := chaincfg.HDPrivateKeyToPublicKeyID(chaincfg.MainNet.HDPrivateKeyID[:])
 				put("chaincfg", hx(id))
 				// two networks looked up / neutered at the same time by different goroutines (a shared
